@@ -318,6 +318,46 @@ func fourqKinds() []kind {
 			o.Out("R", out[:])
 			o.OutBool("on", R.IsOnCurve())
 		}},
+		// coordinates set directly (Point's fields are exported), in pairs
+		// whose SUM sits on a carry boundary of the two-word field addition
+		// (the low word all ones while bit 127 is set, 2^127-1, 2^128-2, ..):
+		// the first steps of the addition formulas add and subtract them
+		{"fourq.AddRawCoordinates", 400, 12000, func(r *lib.Rng, k int, o *rec) {
+			var R, Q, P fourq.Point
+			set := func(a, b *fourq.Fp) {
+				x, y := fourqCoordPair(r)
+				copy(a[:], x)
+				copy(b[:], y)
+			}
+			set(&R.X[0], &R.Y[0])
+			set(&R.X[1], &R.Y[1])
+			if k%3 == 0 {
+				Q.SetGenerator()
+			} else {
+				set(&Q.X[0], &Q.Y[0])
+				set(&Q.X[1], &Q.Y[1])
+			}
+			o.In("Rx0", R.X[0][:])
+			o.In("Rx1", R.X[1][:])
+			o.In("Ry0", R.Y[0][:])
+			o.In("Ry1", R.Y[1][:])
+			o.In("Qx0", Q.X[0][:])
+			o.In("Qx1", Q.X[1][:])
+			o.In("Qy0", Q.Y[0][:])
+			o.In("Qy1", Q.Y[1][:])
+			// the outputs are recorded as residues: the exported coordinate
+			// arrays may hold p for 0 (both are the same field element, and
+			// which of the two a back-end leaves there is not an output of
+			// the operation; Marshal canonicalises)
+			P.Add(&Q, &R)
+			o.Out("x0", fourqResidue(P.X[0][:]))
+			o.Out("x1", fourqResidue(P.X[1][:]))
+			o.Out("y0", fourqResidue(P.Y[0][:]))
+			o.Out("y1", fourqResidue(P.Y[1][:]))
+			P.Add(&R, &R)
+			o.Out("2R.x0", fourqResidue(P.X[0][:]))
+			o.Out("2R.y1", fourqResidue(P.Y[1][:]))
+		}},
 		{"fourq.Unmarshal", 240, 9000, func(r *lib.Rng, k int, o *rec) {
 			var in, out, s [32]byte
 			switch k % 6 {
